@@ -12,14 +12,14 @@ import json, os, re, time
 from common import *
 import findings
 
-FILES = ["Wire.tla", "MC_Wire.tla", "TraceWire.tla"]
+FILES = ["Wire.tla", "MC_Wire.tla", "TraceWire.tla", "Mapper.tla", "MC_Mapper.tla", "TraceMapper.tla"]
 
 
-def tlc_cases(tier, asserts, tag="mcw"):
-    """Runs MC_Wire with the given ASSUME lines; returns (cases, stats)."""
+def tlc_cases(tier, asserts, tag="mcw", base="MC_Wire"):
+    """Runs MC_Wire (or MC_Mapper) with the given ASSUME lines; returns (cases, stats)."""
     with Scratch(tag) as sc:
         copy_spec(sc.dir, FILES)
-        open(sc.path("MCW.tla"), "w").write("---- MODULE MCW ----\nEXTENDS MC_Wire\n" + "\n".join("ASSUME " + a for a in asserts) + "\n====\n")
+        open(sc.path("MCW.tla"), "w").write("---- MODULE MCW ----\nEXTENDS " + base + "\n" + "\n".join("ASSUME " + a for a in asserts) + "\n====\n")
         open(sc.path("MCW.cfg"), "w").write('CONSTANT Tier = "%s"\n' % tier)
         rc, out, wall = run_tlc(sc.dir, "MCW.tla", cfg="MCW.cfg", workers=1, timeout=3000, heap="6g")
         if "Model checking completed. No error has been found." not in out:
@@ -27,7 +27,7 @@ def tlc_cases(tier, asserts, tag="mcw"):
         return tlc_prints(out, "CASE"), wall
 
 
-def run_wire(vh, cases, name="wire"):
+def run_wire(vh, cases, name="wire", trace_spec="TraceWire.tla"):
     """Runs the cases on the codecs and validates the trace with TraceWire.tla. Restarts after a crash of the harness
     process (a panic in the server's connection goroutine), attributing it to the request being served."""
     with Scratch(name) as sc:
@@ -73,10 +73,10 @@ def run_wire(vh, cases, name="wire"):
             for ev in uniq:
                 f.write(json.dumps(ev) + "\n")
         open(sc.path("T.cfg"), "w").write("SPECIFICATION Spec\nCHECK_DEADLOCK FALSE\n")
-        rc, out, wall = run_tlc(sc.dir, "TraceWire.tla", cfg="T.cfg", workers=1, timeout=3000, heap="6g")
+        rc, out, wall = run_tlc(sc.dir, trace_spec, cfg="T.cfg", workers=1, timeout=3000, heap="6g")
         complete = tlc_prints(out, "TRACE-COMPLETE")
         if rc != 0 or not complete:
-            raise Broken("TraceWire did not complete:\n" + out[-3000:])
+            raise Broken(trace_spec + " did not complete:\n" + out[-3000:])
         g, d = tlc_stats(out)
         mism = tlc_prints(out, "MISMATCH")
         return {"mismatches": mism, "states": d, "transitions": g, "events": uniq, "crashes": crashes,
@@ -84,17 +84,17 @@ def run_wire(vh, cases, name="wire"):
                          [{"mismatch": m, "wire": None} for m in mism if "id" not in m.get("detail", {})]}
 
 
-def shard_run(vh, cases, n=None):
+def shard_run(vh, cases, n=None, trace_spec="TraceWire.tla"):
     n = n or min(NCPU, max(1, len(cases) // 1500))
     shards = [cases[i::n] for i in range(n)]
-    return pmap(lambda sh: run_wire(vh, sh), shards)
+    return pmap(lambda sh: run_wire(vh, sh, trace_spec=trace_spec), shards)
 
 
-def confirm_fn(vh):
+def confirm_fn(vh, trace_spec="TraceWire.tla"):
     def confirm(case):
         if case.get("wire") is None:
             return [case["mismatch"]], None
-        r = run_wire(vh, [case["wire"]])
+        r = run_wire(vh, [case["wire"]], trace_spec=trace_spec)
         return [m for m in r["mismatches"] if m["what"] == case["mismatch"]["what"]], None
     return confirm
 
@@ -190,4 +190,33 @@ def run_c19(prop, tier):
     write_evidence(prop, tier, "model_checking", cov, time.time() - t0, violations=len(verdict["violations"]),
                    assumptions=["bytes that are not JSON stop in encoding/json before any libovsdb code runs: trees suffice",
                                 "long or deeply nested adversarial inputs and coverage-guided byte fuzzing are outside this technique"])
+    return verdict
+
+
+def run_c09(prop, tier):
+    """C09: Mapper.tla gives, per column type, the one Go type a model field may have and the wire encoding of every
+    native value; TLC enumerates (column type x candidate Go type) and (column type x value); the real mapper binds,
+    writes, reads back (GetRowData, CreateModel) and TraceMapper.tla judges."""
+    t0 = time.time()
+    vh = build_vh()
+    cases, wall = tlc_cases(tier, ["TypeLaws", "EmitTypes(0) /\\ EmitVals(0)"], tag="mcm", base="MC_Mapper")
+    res = shard_run(vh, cases, n=4, trace_spec="TraceMapper.tla")
+    allc = [c for r in res for c in r["cases"] if c["mismatch"].get("prop") == "C09"]
+    for c in allc:
+        c["key"] = {"col": c["wire"].get("col"), "gotype": c["wire"].get("gotype"), "value": c["wire"].get("value")} if c.get("wire") else {}
+    verdict = findings.adjudicate(prop, allc, confirm_fn(vh, "TraceMapper.tla"))
+    evs = [ev for r in res for ev in r["events"]]
+    cols = {json.dumps(c["col"], sort_keys=True) for c in cases}
+    cov = {"states": sum(r["states"] for r in res), "transitions": sum(r["transitions"] for r in res), "traces_validated_against_impl": len(res),
+           "column_types": len(cols), "go_type_candidates_tried": sum(1 for e in evs if e["ev"] == "mtype"),
+           "accepted": sum(1 for e in evs if e["ev"] == "mtype" and e["accepted"]), "values_round_tripped": sum(1 for e in evs if e["ev"] == "map"),
+           "samples": [c for c in cases if c["mode"] == "map"][:: max(1, len(cases) // 4)][:3],
+           "known_findings_seen": verdict["known"],
+           "rule": "column types: every atomic type as key with min/max 1..1, 0..1, 0..n, 1..n, 0..3, 2..3; string and integer enums; maps over three key and "
+                   "five value types; for each, 24 candidate Go field types must be rejected except NativeType(column); every value within the bounds (atoms incl. "
+                   "64-bit extremes and large reals, nil/non-nil optionals, empty/singleton/multi sets and maps) goes NewRow -> json -> Row -> GetRowData and "
+                   "CreateModel; TLC judges the JSON against Enc(column, value), the value read back, and that absent columns leave fields untouched"}
+    write_evidence(prop, tier, "model_checking", cov, time.time() - t0, violations=len(verdict["violations"]),
+                   assumptions=["NewRow without a field list leaves out columns holding the zero value; read into a fresh model that is the same value",
+                                "non-finite reals are excluded by the property"])
     return verdict
